@@ -6,12 +6,13 @@ mod rec;
 mod reclayer;
 mod registry_sim;
 mod sites;
+mod span_sim;
 
 use fw::{Engine, GenCtx};
 use serde_json::Value;
 use std::io::Read;
 
-static ENGINES: &[&(dyn Engine)] = &[&appender::AppenderEngine, &core_sim::CoreEngine, &registry_sim::RegistryEngine];
+static ENGINES: &[&(dyn Engine)] = &[&appender::AppenderEngine, &core_sim::CoreEngine, &registry_sim::RegistryEngine, &span_sim::SpanEngine];
 
 fn engine_for_prop(prop: &str) -> Option<&'static dyn Engine> {
     ENGINES.iter().copied().find(|e| e.props().contains(&prop))
@@ -27,6 +28,7 @@ fn budget(prop: &str) -> (u64, u64) {
         "C01" => (150_000, 3_000_000),
         "C02" => (150_000, 3_000_000),
         "C04" => (150_000, 3_000_000),
+        "C03" => (120_000, 2_500_000),
         "C05" => (120_000, 2_500_000),
         "C06" => (120_000, 2_500_000),
         _ => (40_000, 1_000_000),
